@@ -152,7 +152,7 @@ def names(cfg, crate, ctx, rep):
                 x0 = core(x0.fields["0"])
             flat.append((c, x0))
         parse = [(cal, args, n) for cal, args, n, cond, f in I.calls
-                 if cal.endswith("std::net::IpAddr>::from_str") or (cal.endswith("str>::parse") and "std::net::IpAddr" in n.get("ty", ""))]
+                 if cal == "parse::<std::net::IpAddr>"]
         if len(parse) != 1:
             return {"error": "expected exactly one IP-address parse, found %d" % len(parse)}
         cal, args, n = parse[0]
